@@ -29,7 +29,12 @@ def splitLines (b : List UInt8) : List (List UInt8) :=
     | [] => [cur.reverse]
   go [] b
 
-def sortStrs (l : List String) : List String := (l.toArray.qsort (· < ·)).toList
+
+/-- field lines ordered by field name only (stable: the lines of one name keep their wire order), as
+`sortByName` in harness/cmd/hresp/main.go -/
+def sortByName (lines : List (List UInt8)) : List String :=
+  let keyed := lines.map fun l => (hex (l.takeWhile (· != 58)), hexOrHash l)
+  (keyed.mergeSort fun a b => !(decide (b.1 < a.1))).map (·.2)
 
 def joinOrDash (l : List String) : String := if l.isEmpty then "-" else String.intercalate "," l
 
@@ -46,14 +51,14 @@ def report (wire : List UInt8) : String :=
   let first := lines.headD []
   let others := lines.drop 1
   let chunked := others.contains (str "Transfer-Encoding: chunked")
-  let hs := joinOrDash (sortStrs (others.map hexOrHash))
+  let hs := joinOrDash (sortByName others)
   let (rest, trl) : List UInt8 × String :=
     if chunked then
       let rev := rest.reverse
       match findRev 0 rev with
-      | some j => ((rev.drop j).reverse, joinOrDash (sortStrs ((splitLines (rev.take j).reverse).map hexOrHash)))
+      | some j => ((rev.drop j).reverse, joinOrDash (sortByName (splitLines (rev.take j).reverse)))
       | none =>
-        if rest.take 3 == [48, 13, 10] then (rest.take 3, joinOrDash (sortStrs ((splitLines (rest.drop 3)).map hexOrHash)))
+        if rest.take 3 == [48, 13, 10] then (rest.take 3, joinOrDash (sortByName (splitLines (rest.drop 3))))
         else (rest, "-")
     else (rest, "-")
   s!"head={hexOrHash first} hdr={hs} rest={rest.length}:{hex64 (fnv rest)} trl={trl}"
@@ -308,11 +313,14 @@ partial def loop (h : IO.FS.Stream) (s : DS) : IO Unit := do
       let (tw, two) := match Own.eraseOp s.g s.r op with
         | some (e, top) => Own.step e s.o top
         | none => (s.o, none)
-      let tr := if two == o || (two.isNone && o.isNone) then Own.traceSince tw.heap n0 else "!twin-desync"
+      let tr := if !(two == o || (two.isNone && o.isNone)) then "!twin-desync"
+                else if !(Own.sim r tw) && o != some .panic then "!twin-sim"
+                else Own.traceSince tw.heap n0
+      let own := Own.showOwn tw
       match o with
       | some .panic => IO.println s!"{tag} panic"; loop h { s with r, o := tw, ph := .dead }
-      | some w => IO.println s!"{tag} {showRes w} w={showW (opWrites s.r r rf)} tr={tr}"; loop h { s with r, o := tw }
-      | none => IO.println s!"{tag} w={showW (opWrites s.r r rf)} tr={tr}"; loop h { s with r, o := tw }
+      | some w => IO.println s!"{tag} {showRes w} w={showW (opWrites s.r r rf)} own={own} tr={tr}"; loop h { s with r, o := tw }
+      | none => IO.println s!"{tag} w={showW (opWrites s.r r rf)} own={own} tr={tr}"; loop h { s with r, o := tw }
     | .dead => IO.println "dead"; loop h s
     | .done => IO.println "done"; loop h s
     | .none => IO.println "bad-op"; loop h s
@@ -323,7 +331,8 @@ partial def loop (h : IO.FS.Stream) (s : DS) : IO Unit := do
     | none => IO.println "bad-op"; loop h { s with ph := .none }
   | "C" :: "body" :: rest =>
     match field rest "maxbody", field rest "rl", (field rest "hp").bind mkHandler with
-    | some mb, some rl, some hd =>
+    | some mb, some rl, some hd0 =>
+      let hd := { hd0 with rejected := field rest "rej" == some "1" }
       let hg : Http.Cfg := { isClient := false, maxBody := mb.toNat!, urlOk := fun _ => true, protoOk := fun _ => true }
       IO.println "ok"
       loop h { s with ph := .none, c := none, w := none, b := some { hg, hp := Http.init hg, maxBody := mb.toNat!, rl := rl.toNat!, handler := hd } }
